@@ -104,3 +104,15 @@ Definition spec_mask (st : style) (t : text) (mw : option Q) (ils mini : bool) (
        (if Bool.eqb hy (sp_hyphen s) then 0 else 4) +
        (if wd_ok then 0 else 8))%nat
   end.
+
+(* ---- word lists: the texts of the theorems *)
+Definition is_word (w : text) : bool := match w with [] => false | _ => forallb is_letter w end.
+Fixpoint join (ws : list text) : text :=
+  match ws with
+  | [] => []
+  | [w] => w
+  | w :: r => w ++ Sp :: join r
+  end.
+(* characters of the first k words laid on one line (without the space that follows) *)
+Definition wlen (ws : list text) (k : nat) : nat := length (join (firstn k ws)).
+Definition fits_chars (fs w : Q) (n : nat) : Prop := (inject_Z (Z.of_nat n) * fs <= w)%Q.
